@@ -442,6 +442,29 @@ func c11Raw() []c11Fail {
 			}
 		}
 	}
+	// a datagram that lost its last octets on the way (the UDP length field says more than the
+	// IP payload carries): never delivered, whether it has no checksum or the lost octets were
+	// zeros (which the checksum cannot see)
+	for _, n := range []int{10, 24, 100} {
+		for _, lost := range []int{1, 4, 8, 9} {
+			for _, variant := range []string{"nochecksum", "zero-tail"} {
+				data := c11Data(byte(n+lost), n)
+				if variant == "zero-tail" {
+					for i := n - lost; i < n; i++ {
+						data[i] = 0
+					}
+				}
+				u := ref.BuildUDP(7779, c11RecvPort, data, r.pAddr, r.sAddr)
+				if variant == "nochecksum" {
+					u[6], u[7] = 0, 0
+				}
+				r.InjectIP(ref.ProtoUDP, u[:len(u)-lost])
+				if v, _, err := rcv.Read(nil); err == nil {
+					fails = append(fails, c11Fail{"truncated-datagram-delivered", fmt.Sprintf("a datagram of %d payload bytes that lost its last %d octets in transit (UDP length field %d, IP payload %d, %s): Read returned %d bytes - not a datagram that was sent", n, lost, 8+n, 8+n-lost, variant, len(v))})
+				}
+			}
+		}
+	}
 	// a datagram damaged on the way (one payload bit flipped, checksum field as sent and not
 	// zero) is not "a datagram that was sent to it": it must not be returned
 	for _, n := range []int{1, 8, 1472} {
